@@ -998,6 +998,25 @@ func (m *c13M) lval(fr *c13Frame, e ast.Expr) *c13V {
 			var sink c13V
 			return &sink
 		}
+		if base.k == c13Map && base.m != nil {
+			// m[k] = v on a modelled map: the slot of the key (appended when new)
+			key := m.eval(fr, e.Index)
+			if key.k == c13Unk {
+				m.abort("store at unknown key in %s", types.ExprString(e))
+			}
+			for i, k := range base.m.keys {
+				eq, known := m.eq(k, key)
+				if !known {
+					m.abort("map key comparison undecided in %s", types.ExprString(e))
+				}
+				if eq {
+					return &base.m.vals[i]
+				}
+			}
+			base.m.keys = append(base.m.keys, key)
+			base.m.vals = append(base.m.vals, m.zero(base.m.elem))
+			return &base.m.vals[len(base.m.vals)-1]
+		}
 		m.abort("store into %s", types.ExprString(e))
 	case *ast.StarExpr:
 		v := m.eval(fr, e.X)
